@@ -33,6 +33,10 @@ pub enum Op {
     Extents { h: u8 },
     Remount { how: u8 },
     Tick { ms: u32 },
+    /// transient storage fault: the (k+1)-th device call from now fails once with an I/O error; the model-based and
+    /// raw-image judgements are suspended for the next `hold` operations (the faulted call may have been cut short at
+    /// any point) and resume after them
+    FaultNext { k: u16, hold: u8 },
 }
 
 #[derive(Clone, Copy, Debug, PartialEq, Eq, Hash, PartialOrd, Ord, Serialize, Deserialize)]
@@ -186,6 +190,8 @@ pub struct Run<'a> {
     pub crash: bool,
     pub base_image: Option<Store>,
     pub flush_events: Vec<FlushEvent>,
+    /// operations left during which judgement is suspended after Op::FaultNext
+    pub fault_hold: u32,
 }
 
 /// a point at which flushing or dropping a handle returned: the file must survive any later power cut
@@ -227,6 +233,7 @@ impl<'a> Run<'a> {
             trace: Trace::default(),
             step: 0,
             mount_image: None,
+            fault_hold: 0,
             status_at_mount: vol.status0 & 3,
             last_dec: None,
             pattern_salt: 0,
@@ -503,6 +510,42 @@ impl<'a> Run<'a> {
         if self.sess.is_none() {
             return Ok(());
         }
+        if let Op::FaultNext { k, hold } = op {
+            let k = *k as u64;
+            self.dev.with(|d| {
+                d.fail_at = Some(d.calls + 1 + k);
+                d.fail_tag = 0xFA17;
+                d.fired = None;
+                d.fail_kind = None;
+            });
+            self.fault_hold = *hold as u32;
+            self.trace.hit("fault_armed");
+            self.trace.ops_run += 1;
+            return Ok(());
+        }
+        if self.fault_hold > 0 {
+            // under a (possibly still pending) transient fault: run the call, judge nothing but panics and hangs
+            let ran = self.exec_inner(op);
+            self.fault_hold -= 1;
+            let fired = self.dev.with(|d| d.fired.is_some());
+            if fired {
+                self.trace.hit("fault_fired");
+            }
+            if self.fault_hold == 0 {
+                self.dev.with(|d| {
+                    d.fail_at = None;
+                    d.fired = None;
+                });
+                self.last_dec = None;
+            }
+            return match ran {
+                Err(v) if v.aspect == Aspect::Panic || v.aspect == Aspect::Budget => Err(v),
+                _ => {
+                    self.trace.ops_run += 1;
+                    Ok(())
+                }
+            };
+        }
         let writes_before = self.dev.with(|d| d.n_writes);
         let pre_dec = if self.cfg.regions { self.last_dec.take() } else { None };
         if self.cfg.regions {
@@ -564,6 +607,7 @@ impl<'a> Run<'a> {
                 self.clock.advance(*ms as u64);
                 Ok(true)
             }
+            Op::FaultNext { .. } => Ok(true),
         }
     }
 
@@ -1181,6 +1225,9 @@ impl<'a> Run<'a> {
             d.log_calls = true;
         });
         self.ro_mode = true;
+        // a read-only session usually happens on a later day than the one the volume was written on (a stamped access
+        // date would differ from the stored one)
+        self.clock.advance(86_400_000 * 2 + 3_600_000);
         self.mount()?;
         self.check_readonly("mount")?;
         Ok(())
